@@ -1,6 +1,6 @@
 import ZV.Model.C28
 /-! line protocol for C28 (see go/props/c28):
-    `c28 sh|ch|cert|fin <msg hex>`  and
+    `c28 sh|ch|cert|cert13|fin <msg hex>`  and
     `c28 skx <kex> <vers> <keytype> <client sigalgs> <pointOK> <client random> <server random> <cert (ignored)> <msg hex>` -/
 namespace ZV.C28
 
@@ -16,7 +16,7 @@ def showCH (l : CHLog) : String :=
     | none => "-"
     | some (n, v) => s!"{n}:{toHex v}"
   let sah := if l.sigHashes.isEmpty then "-" else ",".intercalate (l.sigHashes.map (fun p => s!"{p.1}:{p.2}"))
-  s!"v={l.version} r={toHex l.random} sid={toHex l.sessionID} cs={joinNats l.suites} cm={joinNats (l.comps.map (·.toNat))} ocsp={showB l.ocsp} tick={showB l.ticket} reneg={showB l.secureReneg} ems=0 hb=0 sni={toHex l.sni} scts={showB l.scts} curves={joinNats l.curves} points={joinNats (l.points.map (·.toNat))} sv={joinNats l.sv} st={st} sah={sah} alpn={joinHexs l.alpn} unk=-"
+  s!"v={l.version} r={toHex l.random} sid={toHex l.sessionID} cs={joinNats l.suites} cm={joinNats (l.comps.map (·.toNat))} ocsp={showB l.ocsp} tick={showB l.ticket} reneg={showB l.secureReneg} ems={showB l.ems} hb=0 sni={toHex l.sni} scts={showB l.scts} curves={joinNats l.curves} points={joinNats (l.points.map (·.toNat))} sv={joinNats l.sv} st={st} sah={sah} alpn={joinHexs l.alpn} unk=-"
 
 def showSig (s : SigLog) : String :=
   let sg := if s.hasSigHash then s.sig else 0
@@ -56,6 +56,12 @@ def handle (args : List String) : String :=
     | some msg => match parseCerts msg with
       | none => "err"
       | some cs => let l := certLog cs; s!"leaf={toHex l.leaf} chain={joinHexs l.chain}"
+  | ["cert13", h] =>
+    match ofHex h with
+    | none => "bad-op"
+    | some msg => match parseCerts13 msg with
+      | none => "err"
+      | some r => let l := cert13Log r; s!"leaf={toHex l.leaf} chain={joinHexs l.chain} ocsp={showB r.ocsp} scts={showB r.scts}"
   | ["fin", h] =>
     match ofHex h with
     | none => "bad-op"
